@@ -3,6 +3,7 @@
 package c04
 
 import (
+	"errors"
 	"fmt"
 	"net"
 	"net/netip"
@@ -209,6 +210,19 @@ func checkAccept(s string) (accepted bool, err error) {
 			return false, fmt.Errorf("IPFromReversedAddr(%s) returned both %v and error %v", vp.Q(s), a, derr)
 		}
 		_ = derr.Error()
+		// The error is the caller's: it edits the list of allowed lengths in
+		// its report.  That must not change what the decoder accepts later.
+		var le *netutil.LengthError
+		if errors.As(derr, &le) && len(le.Allowed) > 0 {
+			for i := range le.Allowed {
+				le.Allowed[i] = 0
+			}
+			for _, name := range []string{"b.a.9.8.7.6.5.0.0.0.0.0.0.0.0.0.0.0.0.0.0.0.0.0.8.b.d.0.1.0.0.2.ip6.arpa", "4.3.2.1.in-addr.arpa"} {
+				if back, rerr := netutil.IPFromReversedAddr(name); rerr != nil || model.CanonARPA(back) != name {
+					return false, fmt.Errorf("after the caller edited the Allowed list of the *LengthError returned for %s: IPFromReversedAddr(%q) = %v, %v", vp.Q(s), name, back, rerr)
+				}
+			}
+		}
 		return false, nil
 	}
 	if !a.IsValid() {
